@@ -213,3 +213,33 @@ func DischargeAll(obls []*Obligation, workDir string, timeoutS, seed, parallel i
 		Discharge(u, filepath.Join(workDir, fmt.Sprintf("retry%d", round)), timeoutS*3, seed+round*7919, 5)
 	}
 }
+
+
+// VacuityTwins re-checks a sample of discharged obligations with their goal
+// conjoined with an unconstrained boolean. Such a goal is provable only from
+// contradictory assumptions, so an `unsat` answer means the proof of the
+// original obligation was vacuous. Returns the twins (Status unsat = alarm).
+func VacuityTwins(obls []*Obligation, workDir string, seed int, max int) []*Obligation {
+	var twins []*Obligation
+	perFunc := map[string]int{}
+	for _, o := range obls {
+		if o.Status != "unsat" || o.ExpectSat || o.Pre || o.Solver == "split-by-return" {
+			continue
+		}
+		switch o.Kind {
+		case "post", "frame", "loop-inv-preserved", "call-pre":
+		default:
+			continue
+		}
+		if perFunc[o.Func+o.Kind] >= 2 || len(twins) >= max {
+			continue
+		}
+		perFunc[o.Func+o.Kind]++
+		flag := Term{"vacuity_twin_flag", SBool}
+		t := &Obligation{Name: o.Name + "~twin", Kind: "vacuity-twin", Func: o.Func, Pos: o.Pos, Goal: mkAnd(o.Goal, flag), Script: o.Script,
+			Src: o.Src, Desc: "vacuity twin of " + o.Name, VC: o.VC, ExpectSat: true, Twin: true, TwinOf: o}
+		twins = append(twins, t)
+	}
+	dischargeWith(twins, filepath.Join(workDir, "twins"), 3, seed, 12, "z3-new")
+	return twins
+}
